@@ -30,6 +30,9 @@ ROOT = {
     "n": {"x": 7, "y": 8, "id": "n1", "__typename__": "Obj"},
     "m1": {"x": 11, "y": 12, "id": "m1"}, "m2": {"x": 21, "y": 22, "id": "m2"},
     "lf": [{}, {"id": "z"}, None, {"id": None}],          # falsy but non-null list entries: an empty object is an object
+    # a list of an abstract type whose SECOND item cannot be typed (the type resolver raises ResolverError): the list field fails while item 1 is completed,
+    # after the sub-selection of item 0 has been started
+    "ml": [{"x": 41, "y": 42, "id": "ml0"}, {"id": "bad"}, {"x": 43, "y": 44, "id": "ml2"}],
 }
 
 TEMPLATES = (
@@ -171,7 +174,7 @@ class World:
         return root[key]
 
     def resolver(self, key):
-        kind = self.kinds.get(key, VALUE if key in ("sc", "msc", "ro") else PLAIN)
+        kind = self.kinds.get(key, VALUE if key in ("sc", "msc", "ro", "ml") else PLAIN)
         if kind == PLAIN and not (key == "nn" and self.nn_null):
             return None
         if SHARED_RESOLVER:
@@ -223,10 +226,16 @@ class World:
             raise ResolverError("cannot serialize %s" % (value,))
         odd = ScalarType("Odd", serialize=cannot_serialize, parse=lambda v: v)
         node = InterfaceType("Node", [Field("id", ID)])
+
+        def thing_type(value, ctx, info):
+            if value.get("id") == "bad":
+                raise ResolverError("cannot tell the type of %s" % (value.get("id"),))
+            return "Obj"
+        thing = InterfaceType("Thing", [Field("id", ID)], resolve_type=thing_type)
         obj = ObjectType("Obj", [Field("x", Int, resolver=self.resolver("x")), Field("y", Int, resolver=self.resolver("y")), Field("id", ID),
                                  Field("sc", odd, resolver=self.resolver("sc")),
                                  Field("dm", Int)],          # no resolver: the default resolver finds the object's method
-                         interfaces=[node])
+                         interfaces=[node, thing])
         q = ObjectType("Query", [
             Field("sc", odd, resolver=self.resolver("sc")), Field("lf", ListType(obj)),
             Field("a", Int, resolver=self.resolver("a")), Field("b", Int), Field("nn", NonNullType(Int), resolver=self.resolver("nn")),
@@ -235,6 +244,7 @@ class World:
             Field("ro", obj, resolver=self.resolver("ro")),      # resolves to a Rec object
         ])
         mfields = [Field("m1", obj, resolver=self.resolver("m1")), Field("m2", obj, resolver=self.resolver("m2")), Field("m3", Int, resolver=self.resolver("m3")),
+                   Field("ml", ListType(thing), resolver=self.resolver("ml")),
                    Field("msc", odd, resolver=self.resolver("msc"))]      # resolves fine, fails while the value is COMPLETED (the scalar's serialize raises ResolverError)
         if SAME_ROOT:
             # schema { query: Root mutation: Root }: one object type serves as both roots
